@@ -1,3 +1,208 @@
 import B6.Driver.Common
-/-! Driver for C23 — stub (the check for this property is not built yet). -/
-def main : IO Unit := B6.Driver.run { σ := Unit, init := (), step := fun s _ _ => (s, .bad) }
+import B6.Model.EvalGuards
+/-!
+Driver for C23.  Stateless: every line carries one request.
+
+ops
+  `grpc <world> <mut> <expr>`    the request went through `proto.Marshal/Unmarshal` and `service.Evaluate`
+  `direct <world> - <expr>`      the same tree through `api.Evaluate` with `functions.NewContext`
+answers
+  `val <kind> [text]` | `err` | `panic <site> <kind>` | `crash <site> <kind>` | `hang` | `unmarshalable`
+
+**Property predicate** (on the implementation's answer): the answer is a value or an error.  A panic, a
+dead child (`crash`) or a timeout (`hang`) is `propfail no_panic …`; when the request is in one of the
+recorded input classes (`classOf`: the panic site named by the answer **and** a syntactic condition on
+the expression) the verdict carries `class=<name>`, any other failure is a new violation.
+
+**Correspondence**: for requests inside the modelled fragment (`inFrag`: lambdas, calls, partial
+applications over `add-ints pair first second keyed tagged typed and or`, literals int / string / the
+five modelled query constructors; no wire damage) the answer must equal the model's
+(`EvalGuards.evalDecoded` = C22's `Simplify` then C21's VM then `FromLiteral`, resp. the VM alone for
+`direct`); a request without its expression (`mut = no-request`) and the version checks must answer
+`err` as `EvalGuards.serviceEval … none` does.
+-/
+open B6.Driver B6.Model B6.Model.EvalGuards
+namespace B6.Driver.C23
+
+def fuel : Nat := 3000
+
+/-- functions of the real table that mean what a builtin of the VM model means -/
+def fragFns : List String := ["add-ints", "pair", "first", "second", "keyed", "tagged", "typed", "and", "or"]
+
+def rename (s : String) : String := if s == "add-ints" then "add" else s
+
+/-- names the model's table knows: a parameter called like one of them is outside the fragment -/
+def reserved (s : String) : Bool := (Builtin.ofName s).isSome || fragFns.contains s
+
+mutual
+  def basicQuery : Query → Bool
+    | .keyed _ => true
+    | .tagged _ _ => true
+    | .typed _ q => basicQuery q
+    | .inter qs => basicQueries qs
+    | .union qs => basicQueries qs
+    | .other _ => false
+  def basicQueries : List Query → Bool
+    | [] => true
+    | q :: qs => basicQuery q && basicQueries qs
+end
+
+mutual
+  def inFrag (bound : List String) : Expr → Bool
+    | .sym s => bound.contains s || fragFns.contains s
+    | .lit (.int _) => true
+    | .lit (.str _) => true
+    | .lit (.query q) => basicQuery q
+    | .lit (.other _ _) => false
+    | .call f args _ =>
+      (match f with
+        | .sym s => fragFns.contains s || bound.contains s
+        | .lit _ => true
+        | .lam _ _ => inFrag bound f
+        | .call _ _ _ => inFrag bound f) && inFrags bound args
+    | .lam ps b => ps.all (fun p => !reserved p) && inFrag (ps ++ bound) b
+  def inFrags (bound : List String) : List Expr → Bool
+    | [] => true
+    | a :: as => inFrag bound a && inFrags bound as
+end
+
+mutual
+  def renameExpr : Expr → Expr
+    | .sym s => .sym (rename s)
+    | .lit l => .lit l
+    | .call f args p => .call (renameExpr f) (renameExprs args) p
+    | .lam ps b => .lam ps (renameExpr b)
+  def renameExprs : List Expr → List Expr
+    | [] => []
+    | a :: as => renameExpr a :: renameExprs as
+end
+
+mutual
+  /-- every symbol of the expression, in any position -/
+  def syms : Expr → List String
+    | .sym s => [s]
+    | .lit _ => []
+    | .call f args _ => syms f ++ symss args
+    | .lam _ b => syms b
+  def symss : List Expr → List String
+    | [] => []
+    | a :: as => syms a ++ symss as
+end
+
+mutual
+  /-- the kinds of the opaque literals of the expression -/
+  def litKinds : Expr → List String
+    | .sym _ => []
+    | .lit (.other k _) => [k]
+    | .lit (.query _) => ["query"]
+    | .lit _ => []
+    | .call f args _ => litKinds f ++ litKindss args
+    | .lam _ b => litKinds b
+  def litKindss : List Expr → List String
+    | [] => []
+    | a :: as => litKinds a ++ litKindss as
+end
+
+def mentionsAny (e : Expr) (names : List String) : Bool := (syms e).any names.contains
+def hasLit (e : Expr) (kinds : List String) : Bool := (litKinds e).any kinds.contains
+
+def anyPrefix (s : String) (ps : List String) : Bool := ps.any (fun p => s.startsWith p)
+
+/-! ### the recorded input classes (KNOWN_FINDINGS.txt, property C23) -/
+
+/-- functions whose work and memory grow without bound in a numeric argument or in the extent of a
+geometry (the generator's `heavy` list) -/
+def heavyFns : List String :=
+  ["s2-grid", "s2-covering", "s2-points", "sample-points", "sample-points-along-paths", "tile-paths"]
+
+/-- sites where a geometry of the wrong kind, or an empty / degenerate one, is indexed or asserted -/
+def geometrySites : List String :=
+  ["b6.Geo.", "b6.area.", "b6.InvalidGeometry.", "b6.InvalidArea.", "b6.wrappedPhysicalFeature.", "b6.Centroid",
+   "b6.multiPolygon", "geojson.", "api/functions.distanceToPointMeters", "api/functions.interpolate",
+   "api/functions.Sightline", "api/functions.capPolygon", "api/functions.sightline", "ingest.areaFeature."]
+
+/-- functions that take or make geometry -/
+def geometryFns : List String :=
+  ["length", "join", "ordered-join", "interpolate", "distance-meters", "distance-to-point-meters", "sightline", "centroid",
+   "cap-polygon", "rectangle-polygon", "to-geojson", "to-geojson-collection", "map-geometries", "points", "sample-points",
+   "collect-areas", "convex-hull", "area", "get-centroid", "entrance-approach", "snap-area-edges", "intersecting",
+   "intersecting-cap", "within", "within-cap", "ll", "add-point", "closest", "closest-distance", "s2-polygon", "s2-center",
+   "parse-geojson", "geojson-areas", "import-geojson", "find", "find-areas", "containing-areas", "tile-paths"]
+
+/-- lookups that answer nil for what is not in the world -/
+def nilSources : List String :=
+  ["find-feature", "find-area", "find-relation", "find-collection", "closest", "evaluate-feature", "entrance-approach"]
+
+/-- iterators that panic when an item has no literal form -/
+def unliterableSites : List String := ["b6.arrayIterator.", "ingest.collectionFeatureIterator.", "ingest.(*collectionFeatureIterator)."]
+
+def classOf (e : Expr) (answer site kind : String) : Option String :=
+  if answer == "hang" || (answer == "crash" && kind == "out-of-memory") then
+    if mentionsAny e heavyFns then some "unbounded-work" else none
+  else if anyPrefix site geometrySites then
+    if mentionsAny e geometryFns || hasLit e ["point", "path", "area", "query"] then some "geometry-kind" else none
+  else if anyPrefix site unliterableSites then
+    if hasLit e ["coll", "query"] || mentionsAny e ["collection", "find-collection", "list-feature", "add-collection"] then
+      some "unliterable-item" else none
+  else if site == "b6.Typed.Compile" then
+    if hasLit e ["query"] || mentionsAny e ["typed"] then some "typed-query-type" else none
+  else if site == "api.(*VM).execute" && kind == "explicit" then
+    if e.hasOpenLambda then some "closure-registers" else none
+  else if kind == "nil" && site.startsWith "api/functions." then
+    if mentionsAny e nilSources || hasLit e ["nil"] then some "nil-feature" else none
+  else none
+
+/-! ### model answers -/
+
+def renderModel : Res Val → String
+  | .ok (.int n) => "val int " ++ toString n
+  | .ok (.str s) => "val str x:" ++ hexOfString s
+  | .ok _ => "val other"
+  | .error .error => "err"
+  | .error .panic => "panic"
+  | .error .fuel => "fuel"
+
+/-- `api.Evaluate` + the literal conversion the harness applies to the direct path -/
+def directEval (e : Expr) : Res Val :=
+  match VM.run fuel e with
+  | .error x => .error x
+  | .ok v => if resultLiteral v then .ok v else .error .error
+
+def step (_ : Unit) (op impl : String) : Unit × Verdict :=
+  match words op with
+  | mode :: _world :: dmg :: rest =>
+    if mode != "grpc" && mode != "direct" then ((), .bad) else
+    match Expr.parse (" ".intercalate rest) with
+    | none => ((), .bad)
+    | some e =>
+      let ans := words impl
+      let cls := ans.headD ""
+      if cls == "unmarshalable" then ((), .ok)        -- not a request a client can put on the wire
+      else if cls == "panic" || cls == "crash" || cls == "hang" then
+        let site := (ans.drop 1).headD "?"
+        let kind := (ans.drop 2).headD "?"
+        match classOf e cls site kind with
+        | some c => ((), .propfail ("no_panic " ++ site ++ " class=" ++ c))
+        | none => ((), .propfail ("no_panic " ++ impl))
+      else if cls != "val" && cls != "err" then ((), .bad)
+      else
+        -- the predicate holds; now the correspondence
+        if dmg == "no-request" then
+          let m := renderModel (serviceEval fuel none)
+          ((), if impl == m then .ok else .diff m)
+        else if dmg == "version-empty" || dmg == "version-major" || dmg == "version-garbage" then
+          ((), if impl == "err" then .ok else .diff "err")
+        else if dmg == "-" && inFrag [] e then
+          let e' := renameExpr e
+          let m := renderModel (if mode == "grpc" then evalDecoded fuel e' else directEval e')
+          if m == "fuel" then ((), .ok)
+          else if impl == m then ((), .ok)
+          else ((), .diff m)
+        else ((), .ok)
+  | _ => ((), .bad)
+
+def family : Family := { σ := Unit, init := (), step := step }
+
+end B6.Driver.C23
+
+def main : IO Unit := B6.Driver.run B6.Driver.C23.family
